@@ -16,6 +16,7 @@ LINES = [[], [''], ['a'], ['a', 'b'], ['', 'x'], ['é', '漢'], ['has\rcr'], ['a
 class Gen:
     def __init__(self, rng, names=NAMES, depth=3, profile='mixed'):
         self.rng, self.names, self.depth, self.profile = rng, names, depth, profile
+        self.garbage_rate = 0.12
         self.reset()
 
     def reset(self):
@@ -63,12 +64,12 @@ class Gen:
             p = self.rng.choice(sorted(self.files))
         elif want == 'link' and self.links and r < 0.7:
             p = self.rng.choice(sorted(self.links))
-        elif r < 0.55:
-            p = self.existing()
-        elif r < 0.88:
-            p = self.fresh()
-        else:
+        elif r < self.garbage_rate:
             return self.garbage()
+        elif r < self.garbage_rate + 0.5:
+            p = self.existing()
+        else:
+            p = self.fresh()
         return self.spell(p)
 
     # ----- ops -------------------------------------------------------------------------
